@@ -5,6 +5,9 @@ CHECKS = {
     "C02": dict(SIM, test="TestC02", level="exploration",
                 quick=dict(cases=4000, shards=1, budget_s=600),
                 thorough=dict(cases=40000, shards=16, budget_s=3600)),
+    "C07": dict(SIM, test="TestC07", level="exploration",
+                quick=dict(cases=3000, shards=1, budget_s=600),
+                thorough=dict(cases=30000, shards=16, budget_s=3600)),
     "C16": dict(pkg="pure", test="TestC16", level="exploration",
                 quick=dict(cases=20000, shards=1, budget_s=300),
                 thorough=dict(cases=200000, shards=16, budget_s=1800)),
